@@ -3,14 +3,14 @@ CONSTANTS
   Variant = "ok"
   MaxStmts = 1000000
   Kinds = {"exec", "query", "prep", "nest"}
-  ErrKinds = {"plain", "norows", "notfound", "canceled", "txdone", "bad", "deadline"}
-  PanicKinds = {"str", "err", "rt"}
+  ErrKinds = {"plain", "norows", "notfound", "canceled", "txdone", "bad", "deadline", "custom", "nilerr", "wrap", "join"}
+  PanicKinds = {"err", "rt", "e:norows", "e:canceled", "e:txdone", "e:bad", "e:wrap", "nilerr", "nil", "str", "empty", "stringer", "int", "zero", "code", "bool", "float", "struct", "ptr", "nilptr", "slice", "map", "func", "chan"}
   Breaker = TRUE
   Emit = FALSE
   BeginOuts = {"ok", "fail", "bad", "noconn", "f:txdone", "f:canceled", "f:norows"}
   StmtErrs = {"plain", "bad", "txdone", "norows", "canceled", "deadline", "eof", "conndone"}
   FinErrs = {"plain", "bad", "txdone", "norows", "canceled", "deadline", "eof", "conndone"}
   CtxKinds = {"cancel", "deadline"}
-INVARIANTS ImplTypeOK NoDeviation StateInv Done
+INVARIANTS ImplTypeOK NoDeviation StateInv PanicValueBlind Done
 VIEW ImplView
 CHECK_DEADLOCK FALSE
